@@ -987,73 +987,14 @@ Proof.
 Qed.
 
 (* ------------------------------------------------------------------ the model's verdicts *)
-(* C07_position_proofs.variables_in_allowed_position_iff carries two hypotheses its proof does not
+(* C07_position_proofs.variables_in_allowed_position_iff carries hypotheses its proof does not
    use ([doc_types_proper d], [negb (violated R_VariablesAreInputTypes s d)], also
-   [distinct_fragments d]); the same proof script without them: *)
+   [distinct_fragments d]); the statement without them: *)
 Module ViapCore.
-  Import SpecLin VisitorFacts TraceFacts RuleFacts EventFacts StatelessFacts C07_graph_proofs C07_position_proofs.
-  Theorem variables_in_allowed_position_core : forall s d,
-    wf_schema s = true -> distinct_operations d = true -> defaults_const d = true ->
-    (run_alone R_VariablesInAllowedPosition s d <> [] <-> violated R_VariablesInAllowedPosition s d = true).
-  Proof.
-    intros s d Hwf Hdo Hconst.
-    pose proof (wf_query_entry_ok s Hwf) as Hq.
-    pose proof (distinct_operations_NoDup d Hdo) as Hnd.
-    set (st := vfold s (annot s d) viap_init).
-    set (stv := cfold (lin_document d) vars_init).
-    assert (Erun : run_alone R_VariablesInAllowedPosition s d = r_errors (viap_finish s d st)).
-    { unfold run_alone. cbn [run_rule]. rewrite visit_fold, (collect_annot s d _ Hq). reflexivity. }
-    pose proof (VInv_document s d Hnd (defaults_const_spec d Hconst)) as Hvinv. fold st in Hvinv.
-    pose proof (TInv_document d Hnd) as Htinv. fold stv in Htinv.
-    pose proof (sim_document s d Hq) as Hsim. fold st stv in Hsim.
-    (* the model side *)
-    assert (Hmodel : run_alone R_VariablesInAllowedPosition s d <> [] <->
-                     exists o, In o (operations_of d) /\
-                               exists u, In u (op_usages s d o) /\ bad_m s (op_variable_definitions o) u = true).
-    { rewrite Erun, nonnil_exists, viap_finish_fold.
-      assert (Hroots : forall entry, In entry (vp_defs st) -> exists n, fst entry = ScOp n).
-      { intros entry He. rewrite (vi_defs _ _ _ Hvinv) in He. apply in_defs_spec in He.
-        destruct He as (o & _ & _ & ->). eexists. reflexivity. }
-      split.
-      - intros (e & He).
-        apply (finish_spec s d st (HU_all d st stv Htinv Hsim) (vp_defs st) Hroots) in He.
-        cbn [r_errors] in He. destruct He as [[]|(entry & Hent & x & Hx & He)].
-        rewrite (vi_defs _ _ _ Hvinv) in Hent. apply in_defs_spec in Hent. destruct Hent as (o & Ho & _ & ->).
-        cbn [fst snd] in *. exists o. split; [exact Ho|].
-        assert (Hex : exists e0, In e0 (usage_errors s (op_variable_definitions o) (tg x (vp_usages st))))
-          by (exists e; exact He).
-        apply usage_errors_exists in Hex. destruct Hex as (u & Hu & Hb). exists u. split; [|exact Hb].
-        apply (op_usages_iff s d stv Hnd Htinv o u Ho). exists x.
-        split; [apply (vreach_reach st stv Hsim), Hx|]. rewrite <- (vi_us _ _ _ Hvinv). exact Hu.
-      - intros (o & Ho & u & Hu & Hb).
-        apply (op_usages_iff s d stv Hnd Htinv o u Ho) in Hu. destruct Hu as (x & Hx & Hu).
-        assert (Hne : op_variable_definitions o <> []).
-        { intro E. unfold bad_m in Hb. rewrite E in Hb. cbn in Hb. discriminate. }
-        assert (Hex : exists e0, In e0 (usage_errors s (op_variable_definitions o) (tg x (vp_usages st)))).
-        { apply usage_errors_exists. exists u. split; [rewrite (vi_us _ _ _ Hvinv); exact Hu|exact Hb]. }
-        destruct Hex as (e & He). exists e.
-        apply (finish_spec s d st (HU_all d st stv Htinv Hsim) (vp_defs st) Hroots). right.
-        exists (ScOp (op_node_name o), op_variable_definitions o). split.
-        + rewrite (vi_defs _ _ _ Hvinv). apply in_defs_spec. exists o. repeat split; assumption.
-        + exists x. split; [apply (vreach_reach st stv Hsim), Hx|exact He]. }
-    (* the specification side *)
-    assert (Hspec : violated R_VariablesInAllowedPosition s d = true <->
-                    exists o, In o (operations_of d) /\
-                              exists u, In u (op_usages s d o) /\ bad_s (op_variable_definitions o) u = true).
-    { cbn [violated]. unfold v_variables_in_allowed_position. rewrite existsb_exists. split.
-      - intros (o & Ho & H). apply existsb_exists in H. destruct H as (u & Hu & Hb). exists o. split; [exact Ho|].
-        exists u. split; [exact Hu|]. destruct u as [[x lt] ld]. exact Hb.
-      - intros (o & Ho & u & Hu & Hb). exists o. split; [exact Ho|]. apply existsb_exists. exists u.
-        split; [exact Hu|]. destruct u as [[x lt] ld]. exact Hb. }
-    rewrite Hmodel, Hspec.
-    assert (Hagree : forall o u, In u (op_usages s d o) ->
-                                 bad_m s (op_variable_definitions o) u = bad_s (op_variable_definitions o) u).
-    { intros o u Hu. apply bad_agree; [exact Hwf|]. destruct (op_usages_in_definition s d o u Hu) as (x & Hx).
-      exact (definition_usages_good s Hwf x u Hx). }
-    split; intros (o & Ho & u & Hu & Hb); exists o; (split; [exact Ho|]); exists u; (split; [exact Hu|]).
-    - rewrite <- (Hagree o u Hu). exact Hb.
-    - rewrite (Hagree o u Hu). exact Hb.
-  Qed.
+  Definition variables_in_allowed_position_core : forall s d,
+    wf_schema s = true -> C07_position_proofs.defaults_const d = true ->
+    (run_alone R_VariablesInAllowedPosition s d <> [] <-> violated R_VariablesInAllowedPosition s d = true)
+    := C07_position_proofs.variables_in_allowed_position_core.
 End ViapCore.
 
 (* [defaults_const d] (C07_position_proofs): no variable occurs in a variable default value *)
@@ -1062,12 +1003,12 @@ Notation defaults_const := C07_position_proofs.defaults_const.
 (* the side conditions of the per-rule equivalences *)
 Definition side (r : rule_id) (s : sdocument) (d : document) : Prop :=
   wf_schema s = true /\ doc_types_proper d = true /\ defaults_const d = true /\
-  distinct_fragments d = true /\ distinct_operations d = true /\ rule_in_scope r s d = true.
+  distinct_fragments d = true /\ rule_in_scope r s d = true.
 
 Lemma rule_iff r s d : r <> R_OverlappingFieldsCanBeMerged -> side r s d ->
   (run_alone r s d <> [] <-> violated r s d = true).
 Proof.
-  intros Hr (Hwf & Hty & Hdc & Hdf & Hdo & Hsc). destruct r.
+  intros Hr (Hwf & Hty & Hdc & Hdf & Hsc). destruct r.
   - apply C11_proofs.unique_operation_names_iff.
   - apply C11_proofs.lone_anonymous_iff.
   - apply C11_proofs.single_field_subscriptions_iff; assumption.
@@ -1139,9 +1080,9 @@ Qed.
 
 Lemma side_perm r s d d' : Permutation d d' -> side r s d -> side r s d'.
 Proof.
-  intros Hp (Hwf & Hty & Hdc & Hdf & Hdo & Hsc).
+  intros Hp (Hwf & Hty & Hdc & Hdf & Hsc).
   rewrite (doc_types_proper_perm d d' Hp) in Hty. rewrite (defaults_const_perm d d' Hp) in Hdc.
-  rewrite (distinct_fragments_perm d d' Hp) in Hdf. rewrite (distinct_operations_perm d d' Hp) in Hdo.
+  rewrite (distinct_fragments_perm d d' Hp) in Hdf.
   rewrite (rule_in_scope_perm r s d d' Hp) in Hsc. repeat split; assumption.
 Qed.
 
@@ -1156,11 +1097,11 @@ Qed.
 Theorem run_alone_perm_definitions : forall r s d d',
   r <> R_OverlappingFieldsCanBeMerged ->
   wf_schema s = true -> doc_types_proper d = true -> defaults_const d = true ->
-  distinct_fragments d = true -> distinct_operations d = true -> rule_in_scope r s d = true ->
+  distinct_fragments d = true -> rule_in_scope r s d = true ->
   Permutation d d' ->
   (run_alone r s d = [] <-> run_alone r s d' = []).
 Proof.
-  intros r s d d' Hr Hwf Hty Hdc Hdf Hdo Hsc Hp.
+  intros r s d d' Hr Hwf Hty Hdc Hdf Hsc Hp.
   assert (Hside : side r s d) by (repeat split; assumption).
   rewrite (nil_iff_false _ _ (rule_iff r s d Hr Hside)).
   rewrite (nil_iff_false _ _ (rule_iff r s d' Hr (side_perm r s d d' Hp Hside))).
